@@ -240,6 +240,7 @@ def run_type(m, pub_path, want_enc=True, budget=8_000_000, nfs_pre=None):
     for v in groups.values():
         inv = v if inv is None else join(inv, v, topf)
     out['invariant'] = [repr(v)[:300] for v in groups.values()]
+    out['group_keys'] = [list(k) for k in groups.keys()]
     out['n_ok_values'] = len(ok_values)
     # ---- conversions From<Enc> / From<&Enc>: their results join the invariant
     src_inv = {}
